@@ -9,6 +9,10 @@
 // applies (call fails / body read fails / listing fails half way) one iteration is run with exactly that
 // transient failure. Oracle: from the injected failure to the end of that iteration no Upload / Delete is
 // attempted on the bucket.
+//
+// A second family (second_user_test.go) gives the Syncer its second user: the progress loop's SyncMetas runs
+// between two steps of the iteration and meets the failure; the iteration must then do nothing that it does
+// not do without that failed sync.
 package c33
 
 import (
@@ -25,6 +29,7 @@ import (
 
 	"github.com/go-kit/log"
 	"github.com/oklog/ulid/v2"
+	"github.com/thanos-io/objstore"
 	"github.com/thanos-io/thanos/pkg/block/metadata"
 
 	"verif/checks/c29/rig"
@@ -33,6 +38,13 @@ import (
 )
 
 type Case struct {
+	// Family "" = the iteration's own sync meets the failure (one Syncer user). Family "shared" = a second user of the
+	// same Syncer (the progress loop of cmd/thanos/compact.go) syncs between two steps of the iteration, just after
+	// new blocks were uploaded, and ITS sync meets the failure (see second_user_test.go).
+	Family string `json:"family,omitempty"`
+	World  string `json:"world,omitempty"`  // shared family: "lean" (no pending compaction in the complete view) | "full"
+	Inject int    `json:"inject,omitempty"` // shared family: 1-based index of the iteration's step (bucket operation / log call outside a sync) before which the second user acts
+
 	Scenario string `json:"scenario"` // "first" (pending work of every kind) | "second" (iteration 2, 49h later: sources past delete delay)
 	Lister   string `json:"lister"`   // concurrent | recursive
 	Sync     int    `json:"sync"`     // 1-based index of the fetcher sync inside the iteration
@@ -49,6 +61,22 @@ const hour = int64(3600 * 1000)
 type world struct {
 	objs  rig.Objects
 	roles map[string]string // ulid -> role
+	// late: healthy blocks C=[4h,6h), D=[6h,8h) of group a (created with the others, e.g. by a sidecar that was cut
+	// off from the bucket) that get uploaded while the compactor is running (shared family only)
+	late rig.Objects
+	ids  map[string]ulid.ULID // role -> ulid
+}
+
+// lean is the world without B: the complete view has nothing to compact (A is alone in its range).
+func (w *world) lean() *world {
+	l := &world{objs: rig.Objects{}, roles: w.roles, late: w.late, ids: w.ids}
+	pre := w.ids["B"].String() + "/"
+	for k, v := range w.objs {
+		if !strings.HasPrefix(k, pre) {
+			l.objs[k] = v
+		}
+	}
+	return l
 }
 
 func ser(name string, base int64, n int) rig.SeriesSpec {
@@ -60,36 +88,79 @@ func ser(name string, base int64, n int) rig.SeriesSpec {
 }
 
 func buildWorld(t *testing.T, tmp string) *world {
-	w := &world{objs: rig.Objects{}, roles: map[string]string{}}
+	w := &world{objs: rig.Objects{}, roles: map[string]string{}, late: rig.Objects{}, ids: map[string]ulid.ULID{}}
+	var now, t0 int64
 	synctest.Test(t, func(t *testing.T) {
-		ctx := context.Background()
-		now := time.Now().UnixMilli()
-		t0 := now - 10*24*hour // 8h aligned (virtual clock starts at midnight UTC)
+		now = time.Now().UnixMilli()
+		t0 = now - 10*24*hour // 8h aligned (virtual clock starts at midnight UTC)
 		if t0%(8*hour) != 0 {
 			t.Fatalf("HARNESS-ERROR base time %d not 8h aligned", t0)
 		}
-		add := func(name string, mint, maxt int64, ext string) ulid.ULID {
-			id, objs, err := rig.BuildBlock(ctx, tmp, rig.BlockSpec{Name: name, MinT: mint, MaxT: maxt, Ext: map[string]string{"ext": ext},
-				Series: []rig.SeriesSpec{ser("x", mint, 3), ser("y", mint+1000, 2)}})
-			if err != nil {
-				t.Fatalf("HARNESS-ERROR build block %s: %v", name, err)
-			}
-			for k, v := range objs {
-				w.objs[k] = v
-			}
-			w.roles[id.String()] = name
-			time.Sleep(time.Millisecond) // distinct ULID timestamps
-			return id
-		}
+	})
+	type spec struct {
+		name       string
+		mint, maxt int64
+		ext        string
+	}
+	specs := []spec{
 		// group a: A+B compactable into one 8h-range block, N excluded by a no-compact mark, X newest.
-		add("A", t0, t0+2*hour, "a")
-		add("B", t0+2*hour, t0+4*hour, "a")
-		n := add("N", t0+8*hour, t0+10*hour, "a")
-		add("X", t0+10*hour, t0+12*hour, "a")
-		w.objs[n.String()+"/"+metadata.NoCompactMarkFilename] = rig.NoCompactMark(n, time.Now())
+		{"A", t0, t0 + 2*hour, "a"},
+		{"B", t0 + 2*hour, t0 + 4*hour, "a"},
+		{"N", t0 + 8*hour, t0 + 10*hour, "a"},
+		{"X", t0 + 10*hour, t0 + 12*hour, "a"},
+		// late blocks of group a (shared family)
+		{"C", t0 + 4*hour, t0 + 6*hour, "a"},
+		{"D", t0 + 6*hour, t0 + 8*hour, "a"},
 		// group b: P is a duplicate (its sources are covered by Q) -> garbage collection marks it.
-		p := add("P", t0, t0+2*hour, "b")
-		q := add("Q", t0, t0+4*hour, "b")
+		{"P", t0, t0 + 2*hour, "b"},
+		{"Q", t0, t0 + 4*hour, "b"},
+		// group c: M marked for deletion (the mark will be older than the delete delay when the iteration runs).
+		{"M", t0, t0 + 2*hour, "c"},
+		// U: aborted partial upload (no meta.json).
+		{"U", t0, t0 + 2*hour, "u"},
+		// group d: R is past the raw retention.
+		{"R", t0 - 100*24*hour, t0 - 100*24*hour + 2*hour, "d"},
+	}
+	// Every block is built in a bubble of its own (all bubbles start at the same virtual instant; block i is created
+	// i ms later, so ULID timestamps are distinct and ordered as listed) - in parallel: building a TSDB block takes
+	// seconds on a loaded machine.
+	var mu sync.Mutex
+	var wg sync.WaitGroup
+	var failed []string
+	for i, sp := range specs {
+		wg.Add(1)
+		go func() {
+			defer wg.Done()
+			synctest.Test(t, func(t *testing.T) {
+				time.Sleep(time.Duration(i+1) * time.Millisecond)
+				id, objs, err := rig.BuildBlock(context.Background(), tmp, rig.BlockSpec{Name: sp.name, MinT: sp.mint, MaxT: sp.maxt, Ext: map[string]string{"ext": sp.ext},
+					Series: []rig.SeriesSpec{ser("x", sp.mint, 3), ser("y", sp.mint+1000, 2)}})
+				mu.Lock()
+				defer mu.Unlock()
+				if err != nil {
+					failed = append(failed, fmt.Sprintf("build block %s: %v", sp.name, err))
+					return
+				}
+				dst := w.objs
+				if sp.name == "C" || sp.name == "D" {
+					dst = w.late
+				}
+				for k, v := range objs {
+					dst[k] = v
+				}
+				w.roles[id.String()] = sp.name
+				w.ids[sp.name] = id
+			})
+		}()
+	}
+	wg.Wait()
+	if len(failed) > 0 {
+		t.Fatalf("HARNESS-ERROR %v", failed)
+	}
+	synctest.Test(t, func(t *testing.T) {
+		time.Sleep(time.Duration(len(specs)+1) * time.Millisecond)
+		n, p, q, m, u := w.ids["N"], w.ids["P"], w.ids["Q"], w.ids["M"], w.ids["U"]
+		w.objs[n.String()+"/"+metadata.NoCompactMarkFilename] = rig.NoCompactMark(n, time.Now())
 		other := ulid.MustNew(uint64(now), strings.NewReader("0123456789abcdef"))
 		if err := rig.RewriteMeta(w.objs, q, func(m *metadata.Meta) {
 			m.Compaction.Level = 2
@@ -98,14 +169,8 @@ func buildWorld(t *testing.T, tmp string) *world {
 		}); err != nil {
 			t.Fatalf("HARNESS-ERROR %v", err)
 		}
-		// group c: M marked for deletion (the mark will be older than the delete delay when the iteration runs).
-		m := add("M", t0, t0+2*hour, "c")
 		w.objs[m.String()+"/"+metadata.DeletionMarkFilename] = rig.DeletionMark(m, time.Now())
-		// U: aborted partial upload (no meta.json).
-		u := add("U", t0, t0+2*hour, "u")
 		delete(w.objs, u.String()+"/meta.json")
-		// group d: R is past the raw retention.
-		add("R", t0-100*24*hour, t0-100*24*hour+2*hour, "d")
 	})
 	return w
 }
@@ -124,7 +189,8 @@ type run struct {
 	// sync windows of the observed iteration: log positions [start,end)
 	syncStart map[int]int
 	syncEnd   map[int]int
-	syncBase  int // number of syncs before the observed iteration
+	syncBase  int    // number of syncs before the observed iteration
+	off       func() // newRunEv: makes every further bucket operation fail
 }
 
 func (r *run) canon(name string) string {
@@ -148,6 +214,11 @@ func (r *run) canon(name string) string {
 }
 
 func newRun(t *testing.T, wi rig.Wiring, w *world, lister, dataDir string) *run {
+	return newRunEv(t, wi, w, lister, dataDir, nil)
+}
+
+// newRunEv: with ev != nil every bucket operation and every log call of the compactor is announced to ev first.
+func newRunEv(t *testing.T, wi rig.Wiring, w *world, lister, dataDir string, ev func(kind, name string)) *run {
 	r := &run{w: w, roles: map[string]string{}, syncStart: map[int]int{}, syncEnd: map[int]int{}}
 	for k, v := range w.roles {
 		r.roles[k] = v
@@ -161,7 +232,14 @@ func newRun(t *testing.T, wi rig.Wiring, w *world, lister, dataDir string) *run 
 	if os.Getenv("VERIF_RIG_LOG") != "" {
 		logger = log.NewLogfmtLogger(os.Stderr)
 	}
-	comp, err := rig.NewCompactor(wi, rig.Config{Lister: lister, RetentionRaw: retentionRaw}, r.bkt, dataDir, logger)
+	var cbkt objstore.InstrumentedBucket = r.bkt
+	if ev != nil {
+		eb := &evBkt{Bkt: r.bkt, ev: ev}
+		r.off = func() { eb.off.Store(true) }
+		cbkt = eb
+		logger = evLogger{next: logger, ev: ev}
+	}
+	comp, err := rig.NewCompactor(wi, rig.Config{Lister: lister, RetentionRaw: retentionRaw}, cbkt, dataDir, logger)
 	if err != nil {
 		t.Fatalf("HARNESS-ERROR create compactor: %v", err)
 	}
@@ -280,14 +358,14 @@ func requireWork(t *testing.T, scenario string, mutLog []string) {
 	var want []string
 	if scenario == "first" {
 		want = []string{
-			"upload NEW1/meta.json",           // compaction of A+B
-			"upload A/deletion-mark.json",     // sources marked
-			"upload B/deletion-mark.json",     //
-			"upload P/deletion-mark.json",     // garbage collection of the duplicate
-			"delete M/meta.json",              // block past delete delay
-			"delete M/deletion-mark.json",     //
-			"delete U/index",                  // aborted partial upload
-			"upload R/deletion-mark.json",     // retention
+			"upload NEW1/meta.json",       // compaction of A+B
+			"upload A/deletion-mark.json", // sources marked
+			"upload B/deletion-mark.json", //
+			"upload P/deletion-mark.json", // garbage collection of the duplicate
+			"delete M/meta.json",          // block past delete delay
+			"delete M/deletion-mark.json", //
+			"delete U/index",              // aborted partial upload
+			"upload R/deletion-mark.json", // retention
 		}
 	} else {
 		want = []string{"delete A/meta.json", "delete B/meta.json", "delete P/meta.json", "delete R/meta.json"}
@@ -322,16 +400,28 @@ func TestCheck(t *testing.T) {
 	defer r.Finish()
 	wi := rig.CheckWiring(t)
 	r.Set("wiring", wi.Describe())
-	r.Rule("every read operation (sync number x kind x object x occurrence) that a fault-free main-loop iteration issues while a fetcher sync is in progress, " +
+	r.Rule("family own-sync: every read operation (sync number x kind x object x occurrence) that a fault-free main-loop iteration issues while a fetcher sync is in progress, " +
 		"x fault mode (call error; for Get also body-read error; for listings also failure after the first entry), x block lister {concurrent, recursive}" +
 		" [thorough: x scenario {first iteration with pending work of every kind, second iteration 49h later}]; " +
-		"non-trivial = the fault was injected and the fault-free iteration performs at least one Upload/Delete after that sync")
-	r.Assume("the iteration is the sequential compactMainFn of cmd/thanos/compact.go (mirrored, drift-checked); the background cleanup / progress goroutines of --wait mode are not run concurrently",
+		"non-trivial = the fault was injected and the fault-free iteration performs at least one Upload/Delete after that sync. " +
+		"family shared (second user of the same Syncer): every step of the iteration outside a sync (bucket operation or log call; before it two healthy blocks are uploaded and the progress loop's SyncMetas runs on the shared Syncer) " +
+		"x failing read of that second sync (quick: listing, meta.json of each new block, Exists probe + deletion mark + no-compact mark of one new block, call error, concurrent lister, no pending compaction; " +
+		"thorough: every read x every fault mode x both listers, plus the world with a pending compaction); " +
+		"non-trivial = the failure was injected and the iteration performs at least one Upload/Delete after that step when nobody else syncs")
+	r.Assume("the iteration is the sequential compactMainFn of cmd/thanos/compact.go (mirrored, drift-checked); the second Syncer user is the progress loop's body (sy.SyncMetas, return on a retriable error; drift-checked), "+
+		"run atomically between two steps of the iteration (a sync that overlaps a step, or two syncs merged by the Syncer's singleflight, are not explored); the cleanup loop of --wait mode is not interleaved",
 		"downsampleBucket is replaced by a no-op, which is what it is for raw blocks shorter than 40h (drift-checked); retention.resolution-raw=60d so that retention has work",
-		"object storage is an in-memory bucket; a transient failure is one failed call (or body read / half listing), all other calls succeed")
+		"object storage is an in-memory bucket; a transient failure is one failed call (or body read / half listing), all other calls succeed",
+		"shared family oracle is differential: the reference is the same iteration with the same uploads at the same step and no second user; blocks written by the compactor are identified by their parents")
 
 	tmp := t.TempDir()
+	phase := time.Now() // wall-clock, for the timing notes only
+	lap := func(what string) {
+		r.Note("timing: %s %.1fs", what, time.Since(phase).Seconds())
+		phase = time.Now()
+	}
 	w := buildWorld(t, tmp)
+	lap("build 11 blocks")
 
 	scenarios := vlib.Pick(r, []string{"first"}, []string{"first", "second"})
 	listers := []string{"concurrent", "recursive"}
@@ -359,6 +449,22 @@ func TestCheck(t *testing.T) {
 			}
 		}
 	}
+	// family "shared": a second user of the same Syncer (second_user_test.go); enumerated first (cheap runs)
+	lap("own-sync family: fault-free references")
+	checkSecondUser(t)
+	fam := &sharedFamily{t: t, r: r, wi: wi, tmp: tmp, full: w, lean: w.lean(), refs: map[sharedKey]*sharedRef{}}
+	if !r.Replaying() {
+		switch os.Getenv("C33_FAMILY") { // debugging aid only; the driver never sets it
+		case "shared":
+			cases = fam.cases()
+			r.Cap("C33_FAMILY=shared: own-sync family skipped")
+		case "own":
+			r.Cap("C33_FAMILY=own: shared family skipped")
+		default:
+			cases = append(fam.cases(), cases...)
+		}
+	}
+	lap("shared family: steps and discovery runs")
 	gen := func(yield func(Case) bool) {
 		for _, c := range cases {
 			if !yield(c) {
@@ -370,6 +476,10 @@ func TestCheck(t *testing.T) {
 
 	rig.ForEach(r, gen, func(c Case) {
 		r.Sample(c)
+		if c.Family == "shared" {
+			fam.eval(c)
+			return
+		}
 		leaked := rig.Bubble(t, func(t *testing.T) {
 			dir, err := os.MkdirTemp(tmp, "case-")
 			if err != nil {
@@ -410,7 +520,11 @@ func TestCheck(t *testing.T) {
 					}
 				})
 			}
-			iterErr := ru.comp.Iteration(context.Background())
+			iterErr, pan := safeIteration(ru.comp)
+			if pan != nil {
+				r.Violation("panic-in-compactor-iteration", fmt.Sprintf("sync %d: %s(%s) #%d failed (%s): the iteration panicked: %v", c.Sync, c.Kind, c.Name, c.Occ, c.Mode, pan), c)
+				return
+			}
 			if c.Mode == "call" {
 				if ru.b.FailedOp != nil {
 					failPos = ru.b.FailedOp.Seq
@@ -464,6 +578,16 @@ func TestCheck(t *testing.T) {
 			r.Add("runs_with_leaked_goroutines", 1)
 		}
 	})
+}
+
+// safeIteration runs one main-loop iteration; a panic on the calling goroutine is returned instead of killing the check.
+func safeIteration(c *rig.Compactor) (err error, panicked any) {
+	defer func() {
+		if p := recover(); p != nil {
+			panicked = p
+		}
+	}()
+	return c.Iteration(context.Background()), nil
 }
 
 func trunc(s []string, n int) []string {
